@@ -2972,3 +2972,246 @@ Proof.
         rewrite nth_upd_other; auto. intros ->. rewrite Er in Eri. discriminate.
       * rewrite nth_upd_other; auto. intros ->. rewrite Er in Eri. discriminate.
 Qed.
+
+Lemma run_fn_pushes idf v v' c ps : List.length (v_outs v) = 1 -> run_fn idf v = Some (v', c, ps) ->
+  v_ins v' = v_ins v /\ v_outs v' = app_pushes ps (v_outs v) /\ (forall lx, In lx ps -> fst lx < List.length (v_outs v)) /\
+  List.length (v_outs v') = 1.
+Proof.
+  destruct v as [ins outs ca ui vb]. simpl. intros HL. destruct (cache_hit ca ins).
+  - intros H; inversion H; subst. simpl. repeat split; auto. intros lx [].
+  - destruct (all_data ins); [|discriminate]. intros H; inversion H; subst. simpl.
+    destruct outs as [|o [|o2 r]]; simpl in HL; try discriminate.
+    repeat split; auto. intros lx [<-|[]]. simpl. lia.
+Qed.
+
+Lemma apply_pushes_nil ps outs : apply_pushes [] ps outs = (outs, []).
+Proof. induction ps as [|[l x] r IH]; simpl; auto. destruct l; simpl; exact IH. Qed.
+
+Lemma cinfo_nth' body j : nth j (cinfo_of body) ([], []) = (sb_conns (nth j body dsb), sb_orecv (nth j body dsb)).
+Proof.
+  unfold cinfo_of. change (@nil (list src), @nil (option nat)) with ((fun e : sbody snode => (sb_conns e, sb_orecv e)) dsb).
+  now rewrite map_nth.
+Qed.
+
+Lemma run_synced : forall s v v' c ps, slinks s -> sranges s -> vshape s v -> synced s v ->
+  run s v = Some (v', c, ps) ->
+  synced s v' /\ v_ins v' = v_ins v /\ v_outs v' = app_pushes ps (v_outs v) /\
+  (forall lx, In lx ps -> fst lx < List.length (v_outs v)).
+Proof.
+  induction s as [l i a|l pars ols recvs kept uirecv body manual order IH] using snode_ind';
+    intros v v' c ps Hsl Hsr Hv Hsy Hr.
+  - cbn [run] in Hr. destruct Hv as [_ HLo]. destruct (run_fn_pushes _ _ _ _ _ HLo Hr) as (A & B & C & _).
+    split; [exact I|auto].
+  - destruct (vshape_kids _ _ _ _ _ _ _ _ _ _ Hv) as [HLb Hkv].
+    pose proof (slinks_kids _ _ _ _ _ _ _ _ _ Hsl) as Hks.
+    pose proof (sranges_kids _ _ _ _ _ _ _ _ _ Hsr) as Hkr.
+    pose proof (synced_kids _ _ _ _ _ _ _ _ _ _ Hsy) as Hksy.
+    destruct (synced_elim _ _ _ _ _ _ _ _ _ _ Hsy) as (HI & HU & HB).
+    pose proof Hv as (A & B & C & D & _).
+    pose proof Hsl as (Lr & Lk & S0 & S2 & S3 & S4 & S5 & S6 & S7 & _).
+    pose proof Hsr as (_ & RL & R2 & R3 & _).
+    rewrite run_mac in Hr. unfold run_mac_with in Hr. destruct v as [ins outs ca ui vb].
+    simpl in A, B, C, D, HLb, Hkv, Hksy, HI, HU, HB.
+    destruct (cache_hit ca ins).
+    { inversion Hr; subst. split; [exact Hsy|]. simpl. repeat split; auto. intros lx []. }
+    destruct (all_data ins); [|discriminate].
+    set (step := step_kid _ _ kept uirecv (cinfo_of body)) in Hr.
+    set (sinv := fun st : mstate =>
+                   List.length (ms_outs st) = List.length ols /\ List.length (ms_ui st) = List.length pars /\
+                   (forall i, i < List.length pars -> List.length (v_ins (nth i (ms_ui st) dv)) = 1 /\
+                                                       List.length (v_outs (nth i (ms_ui st) dv)) = 1) /\
+                   List.length (ms_body st) = List.length body /\
+                   (forall j, j < List.length body -> vshape (kid body j) (nth j (ms_body st) dv) /\
+                                                      synced (kid body j) (nth j (ms_body st) dv)) /\
+                   in_links pars recvs ins (ms_ui st) (ms_body st) /\
+                   ui_links pars kept uirecv (ms_outs st) (ms_ui st) /\
+                   body_links body (ms_outs st) (ms_body st) /\
+                   ms_outs st = app_pushes (ms_pushes st) outs /\
+                   (forall lx, In lx (ms_pushes st) -> fst lx < List.length ols)).
+    assert (Hstep : forall st r st', sinv st -> step st r = Some st' -> sinv st').
+    { intros st r st' (G1 & G2 & G3 & G4 & G5 & GI & GU & GB & GP & GR) Hs. unfold step, step_kid in Hs.
+      destruct r as [i|j].
+      - destruct (nth i kept false) eqn:Ek.
+        2:{ inversion Hs; subst. unfold sinv. repeat split; auto; try apply G3; try apply G5; auto. }
+        assert (Hi : i < List.length pars).
+        { destruct (Nat.ltb_spec i (List.length pars)); auto. rewrite nth_overflow in Ek by lia. discriminate. }
+        destruct (run_fn true (nth i (ms_ui st) dv)) as [[[u' cc] pp]|] eqn:Eu; [|discriminate].
+        inversion Hs; subst st'. unfold absorb.
+        destruct (G3 i Hi) as [G3a G3b].
+        destruct (run_fn_pushes _ _ _ _ _ G3b Eu) as (F1 & F2 & F3 & F4).
+        pose proof (apply_pushes_exact [nth i uirecv None] pp (ms_outs st)) as Hex.
+        pose proof (apply_pushes_len [nth i uirecv None] pp (ms_outs st)) as Hel.
+        pose proof (apply_pushes_range [nth i uirecv None] pp (ms_outs st) (List.length ols)) as Her.
+        destruct (apply_pushes_link [nth i uirecv None] pp (ms_outs st) (v_outs (nth i (ms_ui st) dv))) as [Hlk1 Hlk2].
+        { intros l0 l' o Hl Hl'. destruct l0 as [|l0], l' as [|l']; auto; simpl in *; try (destruct l0; discriminate); destruct l'; discriminate. }
+        { intros l0 o Hl. destruct l0 as [|l0]; [|destruct l0; discriminate]. simpl in Hl.
+          exact (eq_ind_r (fun n => o < n) (R2 i o Hl) G1). }
+        { exact F3. }
+        { intros l0 o Hl. destruct l0 as [|l0]; [|destruct l0; discriminate]. simpl in Hl. apply GU; auto. }
+        rewrite <- F2 in Hlk1.
+        destruct (apply_pushes [nth i uirecv None] pp (ms_outs st)) as [o' q]. simpl in Hex, Hel, Her, Hlk1, Hlk2.
+        assert (Hother : forall o, nth i uirecv None <> Some o -> nth o o' None = nth o (ms_outs st) None).
+        { intros o Ho. apply Hlk2. intros l0. destruct l0 as [|l0]; [exact Ho|destruct l0; discriminate]. }
+        unfold sinv. cbn [ms_outs ms_ui ms_body ms_pushes].
+        split; [exact (eq_trans Hel G1)|]. split; [now rewrite upd_nth_length|]. split; [|split; [auto|split; [auto|]]].
+        { intros i' Hi'. destruct (Nat.eq_dec i' i) as [->|Hne].
+          - rewrite nth_upd_same by lia. split; [congruence|auto].
+          - rewrite nth_upd_other by auto. auto. }
+        split; [|split; [|split; [|split]]].
+        + intros i0 Hi0. specialize (GI i0 Hi0). destruct (nth i0 recvs ROrphan) as [i'|j k|]; auto.
+          destruct (Nat.eq_dec i' i) as [->|Hne].
+          * rewrite nth_upd_same by lia. now rewrite F1.
+          * rewrite nth_upd_other by auto. auto.
+        + intros i0 o Hi0 Hk0 Ho. destruct (Nat.eq_dec i0 i) as [->|Hne].
+          * rewrite nth_upd_same by lia. apply (Hlk1 0 o). exact Ho.
+          * rewrite nth_upd_other by auto. rewrite Hother; auto. intros Ho'. apply Hne. eapply S5; eauto.
+        + intros j lo o Hj Ho. rewrite Hother; auto. intros Ho'. eapply S4; eauto.
+        + rewrite app_pushes_app, <- GP. exact Hex.
+        + intros lx Hin. apply in_app_or in Hin as [Hin|Hin]; auto. apply Her; auto.
+          intros l0 o Hl. destruct l0 as [|l0]; [|destruct l0; discriminate]. simpl in Hl. eauto.
+      - rewrite cinfo_nth' in Hs.
+        set (vj := fetch_from _ (ms_ui st) (ms_body st) (sb_conns (nth j body dsb)) 0 (nth j (ms_body st) dv)) in Hs.
+        destruct (run (kid body j) vj) as [[[vj' cc] pp]|] eqn:Ej; [|discriminate].
+        inversion Hs; subst st'. unfold absorb.
+        destruct (Nat.ltb_spec j (List.length body)) as [Hj|Hj].
+        2:{ (* not a child: nothing is stored *)
+            rewrite (nth_overflow body) by lia. simpl sb_orecv. rewrite apply_pushes_nil.
+            unfold sinv. cbn [ms_outs ms_ui ms_body ms_pushes].
+            rewrite upd_nth_overflow by lia. rewrite app_nil_r. repeat split; auto; try apply G3; try apply G5; auto. }
+        destruct (G5 j Hj) as [Gv Gs].
+        destruct (fetch_from_spec (kid body j) (ms_ui st) (ms_body st) (sb_conns (nth j body dsb)) 0 (nth j (ms_body st) dv)
+                    (List.length (sb_conns (nth j body dsb)))
+                    (fun w => vshape (kid body j) w /\ synced (kid body j) w)) as (FP & FO & _ & FL & FN); auto.
+        { intros w k x _ [W1 W2]. split; [now apply vshape_set_in|apply synced_set_in; auto]. }
+        fold vj in FP, FO, FL, FN. destruct FP as [FP1 FP2].
+        destruct (IH j vj vj' cc pp (Hks j Hj) (Hkr j Hj) FP1 FP2 Ej) as (R1' & R2' & R3' & R4').
+        pose proof (vshape_run _ _ _ _ _ FP1 Ej) as Rv.
+        rewrite FO in R3', R4'.
+        pose proof (apply_pushes_exact (sb_orecv (nth j body dsb)) pp (ms_outs st)) as Hex.
+        pose proof (apply_pushes_len (sb_orecv (nth j body dsb)) pp (ms_outs st)) as Hel.
+        pose proof (apply_pushes_range (sb_orecv (nth j body dsb)) pp (ms_outs st) (List.length ols)) as Her.
+        destruct (apply_pushes_link (sb_orecv (nth j body dsb)) pp (ms_outs st) (v_outs (nth j (ms_body st) dv))) as [Hlk1 Hlk2].
+        { intros l0 l' o Hl Hl'. destruct (S3 j l0 j l' o Hj Hj Hl Hl'); auto. }
+        { intros l0 o Hl. exact (eq_ind_r (fun n => o < n) (R3 j l0 o Hj Hl) G1). }
+        { exact R4'. }
+        { intros l0 o Hl. apply GB; auto. }
+        rewrite <- R3' in Hlk1.
+        destruct (apply_pushes (sb_orecv (nth j body dsb)) pp (ms_outs st)) as [o' q]. simpl in Hex, Hel, Her, Hlk1, Hlk2.
+        unfold sinv. cbn [ms_outs ms_ui ms_body ms_pushes].
+        split; [exact (eq_trans Hel G1)|]. split; [auto|]. split; [auto|]. split; [now rewrite upd_nth_length|].
+        split; [|split; [|split; [|split; [|split]]]].
+        + intros j' Hj'. destruct (Nat.eq_dec j' j) as [->|Hne].
+          * rewrite nth_upd_same by lia. auto.
+          * rewrite nth_upd_other by auto. auto.
+        + intros i0 Hi0. pose proof (GI i0 Hi0) as GIi. pose proof (S0 i0 Hi0) as S0i.
+          destruct (nth i0 recvs ROrphan) as [i'|j2 k2|]; auto.
+          destruct (Nat.eq_dec j2 j) as [->|Hne]; [|now rewrite nth_upd_other by lia].
+          rewrite nth_upd_same by lia. rewrite R2'. destruct S0i as (_ & _ & Hk2 & Hc2).
+          rewrite FN by (destruct (G5 j Hj) as [Gv' _]; destruct (kid body j); simpl in *; destruct Gv' as [E1 _]; lia).
+          rewrite Nat.sub_0_r, Hc2. simpl.
+          destruct (Nat.ltb k2 (List.length (sb_conns (nth j body dsb)))); exact GIi.
+        + intros i0 o Hi0 Hk0 Ho. rewrite Hlk2; auto. intros l0 Hl. eapply S4; eauto.
+        + intros j' lo o Hj' Ho. destruct (Nat.eq_dec j' j) as [->|Hne].
+          * rewrite nth_upd_same by lia. apply Hlk1; auto.
+          * rewrite nth_upd_other by auto. rewrite Hlk2; auto.
+            intros l0 Hl. destruct (S3 j l0 j' lo o Hj Hj' Hl Ho). congruence.
+        + rewrite app_pushes_app, <- GP. exact Hex.
+        + intros lx Hin. apply in_app_or in Hin as [Hin|Hin]; auto. apply Her; auto.
+          intros l0 o Hl. eauto. }
+    assert (Hfold : forall rest st st', sinv st -> fold_opt step rest st = Some st' -> sinv st').
+    { induction rest as [|r rest IHr]; intros st st' Hg Hf; simpl in Hf.
+      - inversion Hf; subst; auto.
+      - destruct (step st r) as [st1|] eqn:E1; [|discriminate].
+        apply (IHr st1 st'); [apply (Hstep st r st1); auto|exact Hf]. }
+    destruct (fold_opt step order (MS outs ui vb 0 [])) as [stf|] eqn:Ef; [|discriminate].
+    inversion Hr; subst v' c ps.
+    assert (Hg0 : sinv (MS outs ui vb 0 [])).
+    { unfold sinv; simpl. repeat split; auto; try apply D; auto. intros lx []. }
+    destruct (Hfold order _ _ Hg0 Ef) as (G1 & G2 & G3 & G4 & G5 & GI & GU & GB & GP & GR).
+    split; [|split; [reflexivity|split; [exact GP|]]].
+    + apply synced_intro; simpl; auto. intros j Hj. apply G5; auto.
+    + intros lx Hin. simpl. rewrite B. auto.
+Qed.
+
+(* an input / output channel addressed by a path that is NOT the receiving side of a value link *)
+Fixpoint free_in (s : snode) (p : list kidref) (k : nat) {struct s} : Prop :=
+  match p with
+  | [] => True
+  | r :: p' =>
+      match s with
+      | SFn _ _ _ => True
+      | SMac _ ps _ recvs _ _ body _ _ =>
+          match r with
+          | KUI i => p' = [] -> k = 0 -> forall i0, i0 < List.length ps -> nth i0 recvs ROrphan <> RUI i
+          | KBody j =>
+              match p' with
+              | [] => forall i0, i0 < List.length ps -> nth i0 recvs ROrphan <> RBody j k
+              | _ => dispatch (fun s' => free_in s' p' k) True body j
+              end
+          end
+      end
+  end.
+
+Fixpoint free_out (s : snode) (p : list kidref) (l : nat) {struct s} : Prop :=
+  match s with
+  | SFn _ _ _ => p = [] /\ l = 0
+  | SMac _ ps ols _ kept uirecv body _ _ =>
+      match p with
+      | [] => l < List.length ols /\
+              (forall i, i < List.length ps -> nth i uirecv None <> Some l) /\
+              (forall j l', j < List.length body -> nth l' (sb_orecv (nth j body dsb)) None <> Some l)
+      | KUI i :: p' => p' = [] /\ l = 0 /\ i < List.length ps
+      | KBody j :: p' => j < List.length body /\ dispatch (fun s' => free_out s' p' l) False body j
+      end
+  end.
+
+Definition free_op (s : snode) (o : op) : Prop :=
+  match o with OSetIn p k _ => free_in s p k | OSetOut p l _ => free_out s p l | ORun => True end.
+
+Lemma synced_set_in_at : forall s v p k x, slinks s -> vshape s v -> synced s v -> free_in s p k ->
+  synced s (set_in_at s v p k x).
+Proof.
+  induction s as [l i a|l ps ols recvs kept uirecv body manual order IH] using snode_ind'; intros v p k x Hsl Hv Hsy Hf.
+  - exact I.
+  - destruct p as [|r p]; [rewrite set_in_at_nil; now apply synced_set_in|].
+    destruct (vshape_kids _ _ _ _ _ _ _ _ _ _ Hv) as [HLb Hkv].
+    pose proof (slinks_kids _ _ _ _ _ _ _ _ _ Hsl) as Hks.
+    pose proof (synced_kids _ _ _ _ _ _ _ _ _ _ Hsy) as Hksy.
+    destruct (synced_elim _ _ _ _ _ _ _ _ _ _ Hsy) as (HI & HU & HB).
+    pose proof Hv as (A & B & C & D & _). pose proof Hsl as (Lr & Lk & S0 & _).
+    destruct v as [ins outs c ui vb]. simpl in A, B, C, D, HLb, Hkv, Hksy, HI, HU, HB.
+    destruct r as [i|j].
+    + cbn [set_in_at]. destruct p; [|exact Hsy]. cbn [free_in] in Hf.
+      apply synced_intro; simpl; auto.
+      * intros i0 Hi0. pose proof (HI i0 Hi0) as HIi. destruct (nth i0 recvs ROrphan) as [i'|j k'|] eqn:Er; auto.
+        destruct (Nat.eq_dec i' i) as [->|Hne]; [|now rewrite nth_upd_other by auto].
+        destruct (Nat.ltb_spec i (List.length ui)) as [Hi|Hi]; [|now rewrite upd_nth_overflow by lia].
+        rewrite nth_upd_same by lia. rewrite set_fn_ins. rewrite nth_upd_other; auto.
+        intros ->. exact (Hf eq_refl eq_refl i0 Hi0 Er).
+      * intros i0 o Hi0 Hk0 Ho. rewrite (HU i0 o Hi0 Hk0 Ho). destruct (Nat.eq_dec i0 i) as [->|Hne].
+        -- rewrite nth_upd_same by lia. destruct (nth i ui dv); reflexivity.
+        -- rewrite nth_upd_other by auto. reflexivity.
+    + rewrite set_in_at_body. destruct (Nat.ltb_spec j (List.length body)) as [Hj|Hj].
+      2:{ rewrite upd_nth_same_val. exact Hsy. }
+      assert (Hio : v_ins (set_in_at (kid body j) (nth j vb dv) p k x) =
+                    match p with [] => upd_nth k x (v_ins (nth j vb dv)) | _ => v_ins (nth j vb dv) end /\
+                    v_outs (set_in_at (kid body j) (nth j vb dv) p k x) = v_outs (nth j vb dv)).
+      { destruct p as [|r p]; [rewrite set_in_at_nil, set_in_ins, set_in_outs; auto|].
+        apply child_input_write_leaves_macro_io. }
+      destruct Hio as [Hi' Ho'].
+      assert (Hchild : synced (kid body j) (set_in_at (kid body j) (nth j vb dv) p k x)).
+      { apply IH; auto. cbn [free_in] in Hf. destruct p as [|r p]; [exact I|].
+        rewrite dispatch_spec in Hf. replace (Nat.ltb j (List.length body)) with true in Hf by (symmetry; now apply Nat.ltb_lt).
+        exact Hf. }
+      apply synced_intro; simpl; rewrite ?upd_nth_length; auto.
+      * intros i0 Hi0. pose proof (HI i0 Hi0) as HIi. destruct (nth i0 recvs ROrphan) as [i'|j2 k2|] eqn:Er; auto.
+        destruct (Nat.eq_dec j2 j) as [->|Hne]; [|now rewrite nth_upd_other by lia].
+        rewrite nth_upd_same by lia. rewrite Hi'. destruct p as [|r p]; auto.
+        rewrite nth_upd_other; auto. intros ->. cbn [free_in] in Hf. exact (Hf i0 Hi0 Er).
+      * intros j2 lo o Hj2 Ho. rewrite (HB j2 lo o Hj2 Ho). destruct (Nat.eq_dec j2 j) as [->|Hne].
+        -- rewrite nth_upd_same by lia. now rewrite Ho'.
+        -- rewrite nth_upd_other by lia. reflexivity.
+      * intros j2 Hj2. destruct (Nat.eq_dec j2 j) as [->|Hne].
+        -- rewrite nth_upd_same by lia. exact Hchild.
+        -- rewrite nth_upd_other by lia. auto.
+Qed.
